@@ -1,10 +1,10 @@
 UNIT = dict(
     id="c15_gambit_terminal",
-    prelude=["floats.rs"],
-    canary_use="broadcast use fl; ax_obeys();",
+    prelude=["floats.rs", "ideal.rs"],
+    canary_use="broadcast use fl; broadcast use ideal; ax_obeys(); ax_rv_lits();",
     assumptions=[
         "BLOCK: the terminal arm of the Gambit reader's `impl IntoGameNode for JoinedNode` (src/gambit.rs); gambit-parser's terminal node and std's HashMap::get are local declarations with assumed contracts; the rest of the reader (parsing, the constant-sum analysis, the sorting of actions) is not covered",
-        "uninterpreted floats",
+        "idealised-real float mode for the payoff sum (operand order does not matter)",
     ],
     items=[
         dict(raw="""#[verifier::external_body]
@@ -35,10 +35,10 @@ pub enum GameNode { Terminal(f64), Other }
              params="self_: JoinedNode<'a>, term: &Terminal",
              ret="out", ret_type="GameNode",
              obligation="C15.V.gambit.terminal_payoff", rules=[],
-             entry="broadcast use fl;\nproof { ax_obeys(); assume(self_.info.outcomes@.contains_key(term.outcome_view())); } // every outcome number of the file is in the table (validated while parsing)",
+             entry="broadcast use fl; broadcast use ideal;\nproof { ax_obeys(); ax_rv_lits(); assume(self_.info.outcomes@.contains_key(term.outcome_view())); } // every outcome number of the file is in the table (validated while parsing)",
              contract="""ensures
     // the zero-sum payoff of a leaf: player one's payoffs collected along the path plus the leaf's own,
     // minus half the constant the two players' payoffs add up to
-    out == GameNode::Terminal(fsub(fadd(self_.cum_payoff, self_.info.outcomes@[term.outcome_view()]), self_.info.sum)), // @ob C15.V.gambit.terminal_payoff"""),
+    out is Terminal && rv(out->Terminal_0) == rv(self_.cum_payoff) + rv(self_.info.outcomes@[term.outcome_view()]) - rv(self_.info.sum), // @ob C15.V.gambit.terminal_payoff"""),
     ],
 )
